@@ -244,10 +244,10 @@ theorem md5_length (msg : List UInt8) : (md5 msg).length = 16 := by
 theorem v3_bits : ∀ n : Fin 256, ((UInt8.ofNat n.val &&& 0x0F) ||| 0x30).toNat / 16 = 3 := by decide +kernel
 theorem var_bits : ∀ n : Fin 256, ((UInt8.ofNat n.val &&& 0x3F) ||| 0x80).toNat / 64 = 2 := by decide +kernel
 
-theorem v3_bits' (b : UInt8) : ((b &&& 0x0F) ||| 0x30).toNat / 16 = 3 := by
+theorem v3_bits_u8 (b : UInt8) : ((b &&& 0x0F) ||| 0x30).toNat / 16 = 3 := by
   have := v3_bits ⟨b.toNat, b.toNat_lt⟩
   simpa using this
-theorem var_bits' (b : UInt8) : ((b &&& 0x3F) ||| 0x80).toNat / 64 = 2 := by
+theorem var_bits_u8 (b : UInt8) : ((b &&& 0x3F) ||| 0x80).toNat / 64 = 2 := by
   have := var_bits ⟨b.toNat, b.toNat_lt⟩
   simpa using this
 
@@ -263,10 +263,10 @@ theorem host_id_is_version3_uuid (name : List UInt8) :
   refine ⟨by simp [nameBasedUUID, stamp, hl], ?_, ?_, ?_⟩
   · simp only [nameBasedUUID, stamp, List.getD_eq_getElem?_getD]
     rw [List.getElem?_set_ne (by decide), List.getElem?_set_self (by omega)]
-    exact v3_bits' _
+    exact v3_bits_u8 _
   · simp only [nameBasedUUID, stamp, List.getD_eq_getElem?_getD]
     rw [List.getElem?_set_self (by simp [hl])]
-    exact var_bits' _
+    exact var_bits_u8 _
   · intro i h6 h8
     simp only [nameBasedUUID, stamp, List.getD_eq_getElem?_getD]
     rw [List.getElem?_set_ne (by omega), List.getElem?_set_ne (by omega)]
